@@ -1,7 +1,9 @@
 (* C17 — noise generators are seed-reproducible continuous streams (statements only; any carrier => bit-exact at binary64) *)
 From Coq Require Import ZArith QArith List Bool.
 Close Scope Q_scope.
-From SK Require Import Arith Noise.
+From SK Require Import Arith Noise NoiseDF.
+From Coq Require Import Reals.
+Close Scope R_scope.
 Import ListNotations.
 Theorem C17_filter_state_carried : forall (A : Arith) (c : section A) xs ys z,
   filt1 A c (xs ++ ys) z = let '(o1, z1) := filt1 A c xs z in let '(o2, z2) := filt1 A c ys z1 in (o1 ++ o2, z2).
@@ -13,6 +15,13 @@ Proof. exact cascade_app. Qed.
 Theorem C17_chunk_invariance : forall (A : Arith) (stream : nat -> T A) cs scale sizes st, length (zstate A st) = length cs ->
   get_many A stream cs scale st sizes = get_series A stream cs scale st (fold_right Nat.add 0 sizes).
 Proof. exact chunk_invariance. Qed.
+(* the colouring section equals the direct-form reference IIR (exact arithmetic): y[n] = a0 x[n] + a1 x[n-1] - b1 y[n-1] *)
+Theorem C17_section_is_direct_form : forall (c : section RA) xs xprev yprev,
+  fst (filt1 RA c xs (a1 RA c * xprev - b1 RA c * yprev)%R) = df1 c xs xprev yprev.
+Proof. exact filt1_is_direct_form. Qed.
+Theorem C17_state_is_direct_form_memory : forall (c : section RA) xs xprev yprev, xs <> [] ->
+  snd (filt1 RA c xs (a1 RA c * xprev - b1 RA c * yprev)%R) = (a1 RA c * last xs 0 - b1 RA c * last (df1 c xs xprev yprev) 0)%R.
+Proof. exact filt1_state_is_direct_form_memory. Qed.
 (* non-vacuity: a concrete three-section generator, sizes [0;2;0;1;3] vs [6], at exact rationals *)
 Open Scope Q_scope.
 Example C17_chunking_example :
@@ -24,3 +33,5 @@ Proof. vm_compute. reflexivity. Qed.
 Print Assumptions C17_chunk_invariance.
 Print Assumptions C17_cascade_state_carried.
 Print Assumptions C17_filter_state_carried.
+Print Assumptions C17_section_is_direct_form.
+Print Assumptions C17_state_is_direct_form_memory.
